@@ -61,6 +61,10 @@ NotStopping(issued, events, a) ==
   /\ \A k \in 1..Len(issued) : TokTarget[issued[k]] # a /\ TokTarget[issued[k]] \notin Anc(a)
   /\ \A x \in Anc(a) \cup {a} : ~Exhausted(events, x)
 
+(* ---- C10 ---- *)
+(* an actor that is handling anything but its final Stopped is live: GetPID must resolve it *)
+LiveResolvable(log) == \A j \in Idx(log) : log[j].kind # "Stopped" => log[j].sreg
+
 (* ---- C13 ---- *)
 ChainAlways(log) == \A j \in Idx(log) : log[j].mw
 
